@@ -216,6 +216,9 @@ def direction(repo: Repo) -> RuleRun:
     # EdgeList.add_from_operation (abstract run): each beam (c1, c2, data) becomes add(vertices[c1], vertices[c2], data)
     afo = repo.func("lists.edge_list.EdgeList.add_from_operation")
     added = []
+    # payloads of every kind - a 'line' beam must be offered to EdgeList.add as well: that is how a block whose own data
+    # leaves a shared edge straight picks up the curved edge a neighbour defined between the same two vertices
+    d_a, d_b, d_c = Obj("dataA", kind="line"), Obj("dataB", kind="arc"), Obj("dataC", kind="spline")
 
     def afo_hook(ev, call: ast.Call, name):
         if attr_chain(call.func) == "self.add":
@@ -223,7 +226,7 @@ def direction(repo: Repo) -> RuleRun:
             added.append(args)
             return Sym(f"edge({args[0]!r},{args[1]!r})")
         if isinstance(call.func, ast.Attribute) and call.func.attr == "get_all_beams":
-            return [(3, 0, Sym("dataA")), (5, 6, Sym("dataB")), (2, 6, Sym("dataC"))]
+            return [(3, 0, d_a), (5, 6, d_b), (2, 6, d_c)]
         return NO_MATCH
 
     el = Obj("edge_list", cls=repo.cls("lists.edge_list.EdgeList"))
@@ -232,9 +235,17 @@ def direction(repo: Repo) -> RuleRun:
     opx.set("edges", Obj("frame"))
     verts = [Sym(f"V{i}") for i in range(8)]
     res_afo = _run(Evaluator(repo=repo, module=afo.module, call_hook=afo_hook), afo, [el, verts, opx])
-    want_added = [[Sym("V3"), Sym("V0"), Sym("dataA")], [Sym("V5"), Sym("V6"), Sym("dataB")], [Sym("V2"), Sym("V6"), Sym("dataC")]]
+    want_added = [[Sym("V3"), Sym("V0"), d_a], [Sym("V5"), Sym("V6"), d_b], [Sym("V2"), Sym("V6"), d_c]]
     want_ret = [(3, 0, Sym("edge(V3,V0)")), (5, 6, Sym("edge(V5,V6)")), (2, 6, Sym("edge(V2,V6)"))]
-    r.check(added == want_added and res_afo == want_ret, afo, "beam (c1, c2, data) -> add(vertices[c1], vertices[c2], data), returned with its corners", f"EdgeList.add_from_operation turns beams [(3,0,A),(5,6,B),(2,6,C)] into add-calls {added} and returns {res_afo}: vertex order or payload no longer follow the beam's corner order", afo.node, key="add_from_operation")
+    r.check(
+        added == want_added and res_afo == want_ret,
+        afo,
+        "beam (c1, c2, data) -> add(vertices[c1], vertices[c2], data) for every kind of data, returned with its corners",
+        f"EdgeList.add_from_operation turns beams [(3,0,line A),(5,6,arc B),(2,6,spline C)] into add-calls {added} and returns {res_afo}: every beam (a 'line' one too - "
+        "the lookup in add() is what hands a neighbour's curved edge to this block's wire) must reach add() with the beam's corner order and payload",
+        afo.node,
+        key="add_from_operation",
+    )
     for a, b, payload in issued:
         want = defined(payload)
         if {a, b} != set(want):
@@ -330,4 +341,15 @@ def face_edge_slots(repo: Repo) -> RuleRun:
 
 face_edge_slots.rule_id = "C07.FACE-EDGE-SLOTS"
 
-RULES = [kind_registry, dedup, direction, reversal, face_edge_slots]
+def curve_direction(repo: Repo) -> RuleRun:
+    """'correctly directed': the points of spline / polyLine / on-curve entries run from the entry's first vertex to its
+    second also when the curve is parametrised the other way round. Same rule as C16.END-PAIRING."""
+    from ..report import rebrand
+    from . import c16
+
+    return rebrand(c16.end_pairing(repo), PROP, "C07.CURVE-DIRECTION")
+
+
+curve_direction.rule_id = "C07.CURVE-DIRECTION"
+
+RULES = [kind_registry, dedup, direction, reversal, face_edge_slots, curve_direction]
